@@ -576,13 +576,15 @@ func racePass(c *hl.Ctx) {
 	}
 	raceUnmatched(c)
 	raceDeferred(c)
+	raceReuse(c)
 }
 
 func run(c *hl.Ctx) {
-	c.Rule("E1: every interleaving of writer W (WritePacket per request) and reader R (ReadMessage+DecodeMessage per response) on one Protocol; scheduling points: transport Write (before it performs; the peer's answer becomes readable inside it), transport Read (enabled iff bytes are readable), Lock/Unlock of the transaction-table mutex (R1). Transport variants: unlimited, back-pressured (1/8/64 bytes in flight, the peer accepts the next request only when its output is delivered) and segmented delivery (reads of at most 1/3/7 bytes, so the reader is descheduled inside chunk headers and payloads). Transaction ids next to each other that collide under integer conversion (1 and 1.5, 2 and 2^32+2, fractions, 2^31, 2^53, 2^63; ids <= 0 mean 'no response expected' and are not used). Transport write failures: the k-th Write either delivers its bytes and still reports an error or accepts nothing, for every k (responses to delivered requests must still be matched). Bounds iterated 0,1,2,3,unbounded; state-key pruning for the larger scenarios. state = distinct observable outcome (records + read sizes); transition = scheduling step. " + umRule + " " + dfRule)
+	c.Rule("E1: every interleaving of writer W (WritePacket per request) and reader R (ReadMessage+DecodeMessage per response) on one Protocol; scheduling points: transport Write (before it performs; the peer's answer becomes readable inside it), transport Read (enabled iff bytes are readable), Lock/Unlock of the transaction-table mutex (R1). Transport variants: unlimited, back-pressured (1/8/64 bytes in flight, the peer accepts the next request only when its output is delivered) and segmented delivery (reads of at most 1/3/7 bytes, so the reader is descheduled inside chunk headers and payloads). Transaction ids next to each other that collide under integer conversion (1 and 1.5, 2 and 2^32+2, fractions, 2^31, 2^53, 2^63; ids <= 0 mean 'no response expected' and are not used). Transport write failures: the k-th Write either delivers its bytes and still reports an error or accepts nothing, for every k (responses to delivered requests must still be matched). Bounds iterated 0,1,2,3,unbounded; state-key pruning for the larger scenarios. state = distinct observable outcome (records + read sizes); transition = scheduling step. " + umRule + " " + dfRule + " " + ruRule)
 	c.Assume("the peer answers in request order, each answer complete and readable before the request's Write returns", "unsynchronised accesses between scheduling points are judged by the separate free-running race-detector pass", "transaction table observed by reflection (skipped if the field path input.transactions disappears)",
 		"family unmatched: what a response that matches no recorded request yields is not judged beyond 'not matched to a request' (an error of that one read, as the library does, or a generic packet are both accepted); after a DecodeMessage error the reader goes on reading (the message was consumed); the mutex state is observed by reflection at input.ltransactions.locked (that clause is skipped if the path disappears)",
-		"family deferred-decode: ReadMessage and DecodeMessage are separate public steps, so a reader may hold several returned messages before decoding them, in any order; the scripted peer's hand-encoded bytes are the reference for what a held message must contain")
+		"family deferred-decode: ReadMessage and DecodeMessage are separate public steps, so a reader may hold several returned messages before decoding them, in any order; the scripted peer's hand-encoded bytes are the reference for what a held message must contain",
+		"family reused-id: a client may use a transaction id again (ids are caller-chosen); it does so for an id whose response it is going to decode only after that decode has returned, so two requests with one id never await a decode at the same time; a response taken with ReadMessage and never passed to DecodeMessage, and a request the peer never answers, are legal histories")
 	if c.Mode() == "race" {
 		racePass(c)
 		return
@@ -598,10 +600,11 @@ func run(c *hl.Ctx) {
 	c.Info("completed_preemption_bound_per_scenario", done)
 	runUnmatched(c)
 	runDeferred(c)
+	runReuse(c)
 }
 
 func replay(c *hl.Ctx, raw json.RawMessage) {
-	if replayUnmatched(c, raw) || replayDeferred(c, raw) {
+	if replayUnmatched(c, raw) || replayDeferred(c, raw) || replayReuse(c, raw) {
 		return
 	}
 	var rc mc.ReplayCase
